@@ -57,3 +57,15 @@ VARIANTS += [
  dict(name='worker-gets-a-derived-name', file=M, expect='flagged(confined/(*ngo/plugin.CLIManager).uninstall)', find=UN_OLD,
       replace=UN_WRAP.replace('return m.uninstall(name)', 'return m.uninstall(name + "/../x")')),
 ]
+
+# a "validate the name, then resolve a path built from it" helper; fine only when the path is built from that very name
+RS_GET_OLD = '\tif err := validatePluginName(name); err != nil {\n\t\treturn nil, err\n\t}\n\tpluginPath := path.Join(name, binName(name))\n\tpath, err := m.pluginFS.SysPath(pluginPath)\n'
+RS_HELPER = (M, '// validatePluginName checks that name is a single file name', 'func (m *CLIManager) resolveIn(name, relPath string) (string, error) {\n\tif err := validatePluginName(name); err != nil {\n\t\treturn "", err\n\t}\n\treturn m.pluginFS.SysPath(relPath)\n}\n\n// validatePluginName checks that name is a single file name')
+VARIANTS += [
+ dict(name='benign-validate-then-resolve-helper', file=M, expect='silent', find=RS_GET_OLD,
+      replace='\tpath, err := m.resolveIn(name, path.Join(name, binName(name)))\n', edits=[RS_HELPER]),
+ dict(name='resolve-helper-path-from-another-value', file=M, expect='flagged(confined/(*ngo/plugin.CLIManager).resolveIn)', find=RS_GET_OLD,
+      replace='\tpath, err := m.resolveIn("default", path.Join(name, binName(name)))\n', edits=[RS_HELPER]),
+ dict(name='resolve-helper-path-has-extra-component', file=M, expect='flagged(confined/(*ngo/plugin.CLIManager).resolveIn)', find=RS_GET_OLD,
+      replace='\tpath, err := m.resolveIn(name, path.Join(name, ctx.Value("sub").(string), binName(name)))\n', edits=[RS_HELPER]),
+]
